@@ -163,6 +163,20 @@ fn check_server(s: &Srv, out: &mut Out) {
             }
             other => out.add("C09", s, format!("RRQ with options was answered with {:?} instead of an OACK", other.map(|x| verif_replay::fmt_packet(&x.0)))),
         }
+        {
+            // tsize on a read request is the file's true size whatever number the client sent
+            let c = client();
+            c.send_to(&rrq("hello.bin", vec![opt(OptionType::TransferSize, 700)]), s.addr).unwrap();
+            match recv(&c) {
+                Some((Packet::Oack(o), from)) => {
+                    if o != vec![opt(OptionType::TransferSize, 3000)] {
+                        out.add("C09", s, format!("RRQ with tsize=700 for a 3000-byte file: OACK is {:?}, expected tsize=3000", o));
+                    }
+                    let _ = c.send_to(&Packet::Error { code: ErrorCode::NotDefined, msg: "stop".into() }.serialize().unwrap(), from);
+                }
+                other => out.add("C09", s, format!("RRQ with tsize=700 was answered with {:?} instead of an OACK", other.map(|x| verif_replay::fmt_packet(&x.0)))),
+            }
+        }
         for (o, v) in [(OptionType::BlockSize, 7usize), (OptionType::BlockSize, 65465), (OptionType::Timeout, 0), (OptionType::Timeout, 256), (OptionType::Windowsize, 0), (OptionType::Windowsize, 65536)] {
             if s.cfg.distinct || s.cfg.overwrite { break; } // keep the sweep short: these wait for a time-out
             let c = client();
@@ -207,6 +221,33 @@ fn check_server(s: &Srv, out: &mut Out) {
             let changed: Vec<_> = after.iter().filter(|x| !before.contains(x)).map(|x| x.0.clone()).collect();
             let outside = changed.iter().any(|p| !p.starts_with(&s.recv_dir));
             out.add(if outside { "C03" } else { "C06" }, s, format!("refused write requests changed the file system: {:?}", changed));
+        }
+    }
+    // absolute request paths name files below the served directory (leading separators are dropped), never the absolute path
+    {
+        let abs_secret = format!("{}/secret.txt", s.root.display());
+        let c = client();
+        c.send_to(&rrq(&abs_secret, vec![]), s.addr).unwrap();
+        if let Some((Packet::Data { data, .. }, _)) = recv(&c) {
+            if data.starts_with(b"TOP SECRET") {
+                out.add("C03", s, format!("RRQ {:?} (an absolute path outside the send directory) was answered with the file's content", abs_secret));
+            }
+        }
+        if !s.cfg.read_only {
+            for lead in ["", "/"] {
+                let abs_planted = format!("{lead}{}/planted-abs.txt", s.root.display());
+                let c = client();
+                c.send_to(&wrq(&abs_planted, vec![]), s.addr).unwrap();
+                if let Some((Packet::Ack(0), from)) = recv(&c) {
+                    let _ = c.send_to(&Packet::Data { block_num: 1, data: b"planted".to_vec() }.serialize().unwrap(), from);
+                    let _ = recv(&c);
+                }
+                std::thread::sleep(Duration::from_millis(30));
+                if s.root.join("planted-abs.txt").exists() {
+                    out.add("C03", s, format!("WRQ {:?} (an absolute path outside the receive directory) created {}", abs_planted, s.root.join("planted-abs.txt").display()));
+                    let _ = std::fs::remove_file(s.root.join("planted-abs.txt"));
+                }
+            }
         }
     }
     if !s.cfg.read_only {
